@@ -154,6 +154,13 @@ CHECKS["C16"] = world("C16", "TestC16", HIST + "profile reload: a fifth of the o
     "dry run of the new placement rules), interleaved with scheduling, the queue cleaner and new applications; non-trivial = a reload applied while at least 2 queues hold allocations that "
     "changes a queue's (own or inherited) properties or removes a non-empty queue from the configuration",
     quick=(14, 200))
+PRE = ("profile preemption: 3-5 leaf queues per parent with guarantees, maxima, preemption fences / disabled queues, a few priority fences and offsets, preemption delays 1ms / 1h; the "
+       "prologue puts an application in up to four leaves, fills every node with running allocations reported by the RM (random sizes, priorities, originators, daemon set pods) and adds "
+       "starving old asks that may preempt; then generated traffic with 70% preempting asks, quota preemption triggers, reloads that lower maxima; victims are read from the "
+       "PREEMPTED_BY_SCHEDULER releases, the asker from the ask whose 'triggered preemption' flag was raised in the step; ")
+CHECKS["C07"] = world("C07", "TestC07", HIST + PRE + "non-trivial = a preemption happened while the pool of running allocations contained at least one ineligible allocation (daemon set pod, "
+    "released or already preempted allocation, higher priority, asker's own leaf, queue with preemption disabled)", quick=(14, 180))
+CHECKS["C08"] = world("C08", "TestC08", HIST + PRE + "non-trivial = a queue preemption with at least 2 queues carrying guarantees, or a quota preemption", quick=(14, 180))
 CHECKS["C09"] = world("C09", "TestC09", HIST + "profile reserve (reservation delay 0, small nodes, 30% required-node asks); non-trivial = a reservation was made and one was removed by "
     "something other than a scheduling cycle (ask/app/node removal, RM reported binding)")
 CHECKS["C10"] = world("C10", "TestC10", HIST + "profile churn-apps; non-trivial = an application that visited at least 4 states")
@@ -223,6 +230,11 @@ META = {
                        "the cleaner removes only empty draining or dynamic queues"),
     "C12": _world_meta("a differential between two executions: the restarted core must accept everything the shim model replays and show the totals computed from the shim model "
                        "(and those of the old core when it was quiescent), then satisfy the C01/C02/C03 oracles during a generated continuation"),
+    "C07": _world_meta("eligibility predicates for every announced victim on the pre-step view (bound, not released, not preempted, no required node, announced once; for queue preemption: "
+                       "asker allows it, waited, other leaf, inside the preemption fence, queue not disabled, shared resource type, priority in the crisp case; required node: on that node, not outranking)"),
+    "C08": _world_meta("guarantee predicates on the pre-step view in their weakest sound reading (asker's path has a guarantee; each victim's path has a queue above its share when taken; the "
+                       "reserved node's free space plus the victims on it cover the ask; quota victims only where a maximum is exceeded, the feature is on and the delay class can have elapsed) "
+                       "and 'preempting = sum of allocations marked preempted' after every step"),
     "C09": _world_meta("equality of the application, node and queue views of the reservation relation and exclusivity rules after every step"),
     "C10": _world_meta("the documented application life-cycle table applied to shim messages and state log, plus state/ledger agreement"),
     "C11": _world_meta("the max-applications gate evaluated on the pre-step queue view and counter sanity after every step"),
